@@ -16,6 +16,7 @@ namespace {
 
 enum { K_TRIPLE, K_NEED, K_AGG, K_LIST, K_NK };
 const char *const KN[] = {"TRIPLE", "NEED", "AGG", "LIST"};
+enum { F_NEGATE_S = NF_WORLD1 };
 
 struct HalfaggSim {
     const Plan &p; Result &r; Net net;
@@ -234,6 +235,15 @@ struct HalfaggSim {
             net.timer(0, 300, A.round);
         };
         net.on_crash = [&](int) { if (r.ok) agg_reboot(); };
+        net.world_fault = [&](int f, Msg &m, int64_t, int64_t) -> bool {
+            // a relay negates the aggregate scalar: (r_1..r_n, s) -> (r_1..r_n, n - s)
+            if (f != F_NEGATE_S || m.kind != K_AGG || m.bytes.size() < 32 || m.bytes.size() % 32) return false;
+            size_t off = m.bytes.size() - 32;
+            ref::U256 sv = ref::U256::from_be(&m.bytes[off]);
+            if (sv.is_zero() || !(sv < ref::FN.m)) return false;
+            ref::FN.neg(sv).to_be(&m.bytes[off]);
+            return true;
+        };
         signer_send(0, 0);
         net.timer(0, 300, 0);
         bool capped = false;
@@ -279,6 +289,7 @@ static Plan halfagg_generate(uint64_t seed, int tier) {
             if (w < 10) f = NF_DROP; else if (w < 22) f = NF_DUP; else if (w < 50) f = NF_FLIP; else if (w < 58) f = NF_SET; else if (w < 64) f = NF_ZERO; else if (w < 69) f = NF_FF;
             else if (w < 77) f = NF_TRUNC; else if (w < 85) f = NF_EXT; else if (w < 92) f = NF_SPLICE; else f = NF_MISDELIVER;
             uint64_t kk = g.below(10);
+            if (g.chance(1, 8)) { f = F_NEGATE_S; kk = 6; }
             if (kk < 5) o.a = {K_TRIPLE, (int64_t)g.below(n + 1), 0, 1, 0, f, (int64_t)g.below(1 << 16), (int64_t)g.below(256)};
             else if (kk < 8) o.a = {K_AGG, 0, 0, 0, 2, f, (int64_t)g.below(1 << 16), (int64_t)g.below(256)};
             else o.a = {K_LIST, 0, 0, 0, 2, f, (int64_t)g.below(1 << 16), (int64_t)g.below(256)};
